@@ -564,7 +564,7 @@ def catalog(thorough):
     add(Flex(UNIT, U8)); add(Flex(Arr(U32, 0), U16)); add(Flex(get(SStruct, []), LE16))
     global IO_SHAPES
     W_con = get(UEnum, "u16", [("unit", []), ("tuple", [K3, V_b8]), ("tuple", [Q_small])], 0)
-    IO_SHAPES = [Vec(BOOL, U8), Vec(U8, U64), W_con, W_msg, W_pad, U_u32_v88, Vec(U8, U32), Str(U16), Flex(V88, U8), Flex(Vec(U16, U16), U16), P_u8u32, Q_small, PU, Flex(U32, U8), W_repo]
+    IO_SHAPES = [Vec(BOOL, U8), Vec(U8, U64), W_con, W_msg, W_pad, U_u32_v88, Vec(U8, U32), Str(U16), Flex(V88, U8), Flex(Vec(U16, U16), U16), P_u8u32, Q_small, PU, Flex(U32, U8), W_repo, UNIT]
     return top
 
 IO_SHAPES = []
